@@ -589,10 +589,14 @@ class Run:
         d2, r2, p2 = idr.deep_descriptors(e.obj)
         a = self.call(op, RDMs, np.array(mats), dissimilarity_measure=e.obj.dissimilarity_measure,
                       descriptors=d1, rdm_descriptors=r1, pattern_descriptors=p1)
-        b = self.call(op, RDMs, np.array(vecs), dissimilarity_measure=e.obj.dissimilarity_measure,
+        # b is built on the very array get_vectors() handed out (the constructor's documented
+        # role is to store the caller's array): two live objects on one buffer. An in-place
+        # operation on either must still change only the object it is called on.
+        b = self.call(op, RDMs, vecs, dissimilarity_measure=e.obj.dissimilarity_measure,
                       descriptors=d2, rdm_descriptors=r2, pattern_descriptors=p2)
         idr.check_object(b, e.model.clone(), self.side, op)
         self.add(a, e.model.clone(), op, [e.eid])
+        self.add(b, e.model.clone(), op, [e.eid])
         require(idr.fingerprint(a) == idr.fingerprint(b),
                 'constructor from matrices and from vectors disagree: %s' % idr.fingerprint_diff(
                     idr.fingerprint(a), idr.fingerprint(b)), 'forms:constructor')
